@@ -30,8 +30,8 @@ INVARIANT CurrentWhenDamaged
 CHECK_DEADLOCK FALSE
 """
 TIERS = {
-    "quick": dict(names='"a"', workers="1, 2", maxclock=1, dirs=["small"], protos=["G", "H"], stride=1),
-    "thorough": dict(names='"a", "b"', workers="1, 2", maxclock=1, dirs=["small", "both", "filler", "filler-dir"], protos=["G", "GP", "H"], stride=1),
+    "quick": dict(names='"a"', workers="1, 2", maxclock=1, dirs=["small"], protos=["G", "H"], stride=1, crash_stride=23),
+    "thorough": dict(names='"a", "b"', workers="1, 2", maxclock=1, dirs=["small", "both", "filler", "filler-dir"], protos=["G", "GP", "H"], stride=1, crash_stride=1),
 }
 DIR_HANDLERS = "[url.HTMLURLHandler, dir.DirHandler, file.FileHandler]"
 DIRS = {
@@ -138,8 +138,76 @@ def _zip_job(job):
             "extras": [ex1, None, ex2]}
 
 
+class _CrashingFile:
+    """Stand-in for the cache file opened for writing: the writer dies (ENOSPC) after `limit` bytes."""
+
+    def __init__(self, real, limit):
+        self.real, self.limit, self.done = real, limit, 0
+
+    def write(self, data):
+        room = self.limit - self.done
+        if len(data) > room:
+            if room > 0:
+                self.real.write(data[:room])
+                self.done += room
+            self.real.flush()
+            import errno
+            raise OSError(errno.ENOSPC, "injected: No space left on device")
+        self.done += len(data)
+        return self.real.write(data)
+
+    def __getattr__(self, name):            # flush, seek, tell, truncate, fileno ...
+        return getattr(self.real, name)
+
+    def __enter__(self):
+        return self
+
+    def __exit__(self, *a):
+        self.real.close()
+        return False
+
+
+def _crash_job(job):
+    """A writer that dies after n bytes while REWRITING an existing, expired cache whose content differs from the
+    current directory: request ; rename a->b ; tick past the lifetime ; request with the crash ; request."""
+    dname, p, n = job
+    d, filler, handlers = DIRS[dname]
+    cw = _cw(handlers)
+    init = {"T": 4, "dir": {"a": "v1", "b": "absent"}}
+    cw.reset(init, filler=filler)
+    ev1, ex1 = cw.request("G")
+    size = os.path.getsize(cw.cpath)
+    mv = {"a": "rename", "n": "a", "m": "b"}
+    cw.apply(mv)
+    cw.apply({"a": "tick", "d": 5})
+    cpath = os.path.abspath(cw.cpath)
+
+    def hook(path, mode):
+        if os.path.abspath(path) == cpath and any(c in mode for c in "wa+"):
+            return _CrashingFile(envsub.REAL["open"](path, mode), n)
+        return None
+
+    envsub.ENV.open_hook = hook
+    try:
+        ev2, ex2 = cw.request(p)
+    finally:
+        envsub.ENV.open_hook = None
+    if os.path.exists(cw.cpath):
+        cw.stamp()
+    ev3, ex3 = cw.request(p)
+    events = [ev1, {"ev": "rename", "n": "a", "m": "b"}, {"ev": "tick", "d": 5}, ev2,
+              {"ev": "cut", "keep": 0 if n == 0 else 1}, ev3]
+    return {"id": "writer-crash/%s/%s@%d" % (dname, p, n), "init": init, "events": events,
+            "case": {"dir": "crash:" + dname, "proto": p, "kind": "crash", "n": n, "size": size},
+            "extras": [ex1, None, None, ex2, None, ex3]}
+
+
 def _any_job(job):
-    return _zip_job(job[1:]) if job[0] == "zip" else _job(job)
+    if job[0] == "zip":
+        return _zip_job(job[1:])
+    if job[0] == "crash":
+        return _crash_job(job[1:])
+    return _job(job)
 
 
 def _size(dname):
@@ -162,6 +230,8 @@ def main(chk, replay=None):
             c = json.load(fp)["case"]
         if str(c["dir"]).startswith("zipindex:"):
             jobs = [("zip", c["dir"].split(":", 1)[1], c["kind"], c["n"])]
+        elif str(c["dir"]).startswith("crash:"):
+            jobs = [("crash", c["dir"].split(":", 1)[1], c["proto"], c["n"])]
         else:
             jobs = [(c["dir"], c["proto"], c["kind"], c["n"])]
     else:
@@ -171,6 +241,10 @@ def main(chk, replay=None):
                 for n in range(0, size, t["stride"]):
                     jobs.append((dname, p, "cut", n))
                 jobs.append((dname, p, "zero", size))
+            # a writer killed after n bytes while rewriting an expired cache of different content
+            for p in t["protos"][:2]:
+                for n in range(0, size + 1, t["crash_stride"]):
+                    jobs.append(("crash", dname, p, n))
         for cw in _CW.values():
             cw.close()
         _CW.clear()
